@@ -66,6 +66,9 @@ def extreme_cases(tier, seed):
         out.append(mk('gamma', ty, [big, 1.0], ('c03',)))
         out.append(mk('beta', ty, [big, big], ('c03',)))
         out.append(mk('beta', ty, [big, 1e-3], ('c03',)))
+        # 2ab overflows the type (BB set-up degenerates): sampling must still terminate
+        for a, b in ([(1e160, 1e160), (2.0, 1e308), (1e308, 1e308)] if ty == 'f64' else [(1e20, 1e20), (2.0, 3e38), (3e38, 3e38)]):
+            out.append(mk('beta', ty, [a, b], ('c03',)))
         out.append(mk('student_t', ty, [big], ('c03',)))
         for s in ([1e3, 1025.0, 2e3, 1e6, 1e300] if ty == 'f64' else [30.0, 129.0, 200.0, 1e6, 1e30]):
             out.append(mk('zeta', ty, [s], ('c03',)))
@@ -176,6 +179,14 @@ def judge(prop, tier, seed, cs, events, meta, t0):
                 c = ctx.get('case') or {}
                 ver.add({'fam': c.get('fam'), 'ty': c.get('ty'), 'kind': 'hang', 'phase': ctx.get('phase'), 'params': c.get('p_human')},
                         {'hang': e})
+        elif ev == 'slow':
+            c = e['case']
+            per_call_us = 1000.0 * e['cpu_ms'] / max(1, e['calls'])
+            if prop == 'C05':
+                ver.add({'fam': c['fam'], 'ty': c['ty'], 'kind': 'cpu_per_call', 'params': c['p_human']},
+                        {'case': c, 'calls': e['calls'], 'cpu_ms': e['cpu_ms'], 'mean_cpu_us_per_call': per_call_us, 'profile': e['profile'],
+                         'note': 'random-stream calls average more than 300 us of CPU each (normal: 0.005..5 us)'})
+            inconclusive.append({'why': 'case cut short: %.0f us CPU per call' % per_call_us, 'case': c['id']})
         elif ev == 'ctor_err':
             inconclusive.append({'why': 'constructor rejected an envelope case: ' + e['err'], 'case': e['case']['id']})
         elif ev == 'ctor_panic':
@@ -202,6 +213,8 @@ def judge(prop, tier, seed, cs, events, meta, t0):
     V.write_evidence(prop, tier, seed, cov, time.time() - t0, len(ver.violations),
                      assumptions=['harness RNG adapters (next_u32 = high half of a 64-bit word)', 'support predicates transcribed from the property statement',
                                   'single-word quantifier: one scripted word per stream, all others from xoshiro256++'])
+    if rc == 1:
+        return 1
     if missing or n_case_records == 0:
         V.log('coverage floor not met: missing', missing)
         return 2
